@@ -236,7 +236,7 @@ func subjects(r *ev.Run, rng *rand.Rand, i int) []subject {
 		aapp := gen.NewActApp(rng, *init)
 		ap := gen.Params(rng, ps, aapp)
 		idx := rng.Intn(n)
-		am, err := channel.NewActionMachine(gen.AccMap(ps[idx].Acc), *ap)
+		am, err := channel.NewActionMachine(ps[idx].AccMap(), *ap)
 		if err != nil {
 			panic(err)
 		}
